@@ -96,6 +96,8 @@ class Plans(object):
         self.seen = {}       # (fn, payload text) -> count
         self.table = {}      # fn -> {payload text: (payload, [replies])}
         self.sent = {}       # fn -> {payload text: [Reply, …]}  (same order as the replies)
+        self.order = {}      # fn -> {payload text: [arrival number, …]}  (same order as the replies)
+        self.arrivals = 0
 
     def worker(self, fn):
         def plan(n, payload):
@@ -118,17 +120,48 @@ class Plans(object):
             ent = self.table.setdefault(fn, {}).setdefault(key[1], (payload, []))
             ent[1].append(doc)
             self.sent.setdefault(fn, {}).setdefault(key[1], []).append(r)
+            self.arrivals += 1
+            self.order.setdefault(fn, {}).setdefault(key[1], []).append(self.arrivals)
             return r
         return plan
 
     def oracle(self):
-        """{fn: [[payload, [replies], [delay_ms or None (never answered)]], …]}"""
+        """{fn: [[payload, [replies], [delay_ms or None (never answered)]], …]}.
+        The model looks a payload up with engine-generated Cause texts masked (they are outside every property and the
+        model does not produce them): payloads that differ only there (an Error Output caught into the data — its Cause
+        names the event id of the failed state's entry) are one entry for the model, while the worker kept a count for
+        each.  Such entries are merged in order of arrival: the model's n-th request carrying the masked payload gets
+        what the n-th such request got from the worker."""
         def entry(fn, k, p, replies):
             sent = self.sent.get(fn, {}).get(k)
             if sent is None or len(sent) != len(replies):       # a table filled in from outside: no delays known
                 return [p, replies]
             return [p, replies, [None if r.kind == "none" else r.delay_ms for r in sent]]
-        return {fn: [entry(fn, k, p, replies) for k, (p, replies) in ents.items()] for fn, ents in self.table.items()}
+        out = {}
+        for fn, ents in self.table.items():
+            groups = {}
+            for k, (p, replies) in ents.items():
+                groups.setdefault(canon_payload(mask_cause(p)), []).append((k, p, replies))
+            rows = []
+            for g in groups.values():
+                if len(g) == 1:
+                    rows.append(entry(fn, *g[0]))
+                    continue
+                merged = []
+                for k, p, replies in g:
+                    e = entry(fn, k, p, replies)
+                    order = self.order.get(fn, {}).get(k) or []
+                    if len(e) < 3 or len(order) != len(replies):
+                        merged = None
+                        break
+                    merged += [(order[i], replies[i], e[2][i]) for i in range(len(replies))]
+                if merged is None:
+                    rows += [entry(fn, *x) for x in g]
+                else:
+                    merged.sort(key=lambda x: x[0])
+                    rows.append([g[0][1], [x[1] for x in merged], [x[2] for x in merged]])
+            out[fn] = rows
+        return out
 
 
 def mask_cause(x):
@@ -285,7 +318,7 @@ def fanout_names(machine):
 FANFAIL_KINDS = ("ExecutionStarted", "ExecutionSucceeded", "ExecutionFailed", "LambdaFunctionSucceeded")
 
 
-def oracle_order_ambiguous(m):
+def oracle_order_ambiguous(m, requests=None, timed=False):
     """A worker's plan answers the n-th request carrying a given payload; the engine counts requests in the order they
     arrive (time), the reference semantics in the order it evaluates branches (index).  When concurrent branches ask the
     same function the same question the two orders can differ — visible in the model's own prediction: its
@@ -300,10 +333,82 @@ def oracle_order_ambiguous(m):
             if k in last and t < last[k]:
                 return True
             last[k] = t
-    return False
+    return requests is not None and replay_overrun(m, requests, timed)
 
 
-def compare_history(machine, m, history, n_requests, timed=False, request_instants=None):
+def _request_instants(m, requests):
+    """per (function, masked payload): the instants of the engine's requests (arrival order) and of the model's
+    LambdaFunctionScheduled events (the order the model logged them)"""
+    from common import cj
+    eng, mod = {}, {}
+    for q in requests:
+        eng.setdefault(cj([q["queue"], mask_cause(q["payload"])]), []).append(round(float(q["t"]), 3))
+    for ev in m.get("history", []):
+        if ev[0] == "LambdaFunctionScheduled":
+            fn = str(ev[2].get("resource")).rsplit(":", 1)[-1]
+            mod.setdefault(cj([fn, mask_cause(ev[2].get("input"))]), []).append(model_ms(ev[3]) if len(ev) > 3 else None)
+    return eng, mod
+
+
+def replay_overrun(m, requests, timed):
+    """The oracle the model is given is the *recording* of what the workers answered in this engine run, per (function,
+    payload) in order of arrival.  When a fan-out attempt fails the engine cuts the siblings short (and launches no further
+    Map batch) while the reference semantics runs every branch to its end: a sibling's further requests then consume
+    entries of the recording that the engine gave to *later* requests carrying the same payload (the next attempt of a
+    retried fan-out), and from there on the model is answered differently from the engine.  Under the canonical schedule
+    `settle_oracle` repairs the recording (the model's phantom requests are recognisable by their instants); under any
+    other schedule instants say nothing and only equal numbers of requests per key are accepted — anything else is
+    `skipped.oracle_order`.  `requests`: the simulator's `rpc_requests` of the run."""
+    if not m.get("fanFail") or timed:
+        return False
+    eng, mod = _request_instants(m, requests)
+    return any(len(mod.get(k, [])) != len(eng.get(k, [])) for k in set(eng) | set(mod))
+
+
+def settle_oracle(m, oracle, requests, rerun, rounds=12):
+    """Canonical schedule, some fan-out attempt failed.  A request the model makes in a branch the engine had already cut
+    short (a *phantom*: the engine made no request carrying that payload at that instant) must not consume an entry of the
+    recording.  Per (function, masked payload) the model's request instants (in its own order) are aligned with the
+    engine's: a model request at the instant of the engine's next request is that request and gets its recorded reply; a
+    model request at an earlier instant is a phantom and gets an empty reply (what a phantom is answered cannot matter —
+    its branch is discarded; it comes after the failure, so it cannot become the earliest failure either).  The model is
+    run again on the recording laid out that way (`rerun(oracle) -> outcome`) until the layout no longer changes.  A request of the engine's at a wrong
+    instant is not explained away by this: the model's own request at the right instant is then answered `{}` and the
+    recorded reply goes to a later request, so the histories differ and the comparison reports it.
+    Returns (outcome, number of phantoms)."""
+    import copy
+    from common import cj
+    if not m.get("fanFail") or m.get("tieFail") or m.get("status") not in ("SUCCEEDED", "FAILED"):
+        return m, 0
+    used, n = oracle, 0
+    for _round in range(rounds):
+        eng, mod = _request_instants(m, requests)
+        new, n = copy.deepcopy(oracle), 0
+        for fn, rows in new.items():
+            for row in rows:
+                k = cj([fn, mask_cause(row[0])])
+                e, mo = eng.get(k, []), mod.get(k, [])
+                if len(row) < 3 or len(row[1]) != len(row[2]) or len(e) > len(row[1]):
+                    continue
+                replies, delays, j = [], [], 0
+                for t in mo:
+                    if j < len(e) and t == e[j]:
+                        replies.append(row[1][j]); delays.append(row[2][j]); j += 1
+                    elif j < len(e) and t is not None and t > e[j]:
+                        break               # a request of the engine's the model does not make: left for the comparison
+                    else:
+                        replies.append({}); delays.append(10); n += 1
+                row[1], row[2] = replies + row[1][j:], delays + row[2][j:]
+        if cj(new) == cj(used):
+            return m, n
+        m2 = rerun(new)
+        if m2 is None or m2.get("status") not in ("SUCCEEDED", "FAILED"):
+            return m, 0
+        m, used = m2, new
+    return m, n
+
+
+def compare_history(machine, m, history, n_requests, timed=False, request_instants=None, requests=None):
     """The engine's complete history against the `history` of `Asl.run` (`m`: the model's outcome).
     Returns (mode, problems, number of engine events compared):
       sequence  no Parallel / Map state was entered: the sequences of [type, name, detail] are equal;
@@ -323,7 +428,7 @@ def compare_history(machine, m, history, n_requests, timed=False, request_instan
     # two failed at the same instant: `tieFail`); under any other schedule which is handled first is the schedule's
     if m.get("status") not in ("SUCCEEDED", "FAILED") or m.get("tieFail" if timed else "multiFail"):
         return "skipped", [], 0
-    if oracle_order_ambiguous(m):
+    if oracle_order_ambiguous(m, requests, timed):
         return "skipped.oracle_order", [], 0
     mine = model_events(m, timed)
     theirs = history_events(history, timed)
@@ -361,13 +466,13 @@ def compare_history(machine, m, history, n_requests, timed=False, request_instan
     return mode, probs, len(theirs)
 
 
-def compare_notifications(m, details, data, timed=False):
+def compare_notifications(m, details, data, timed=False, requests=None):
     """The status notifications of the execution (the `detail` of each, in order of publication) against the model's
     `notifications`: the same statuses in the same order — RUNNING carrying the execution's input, then the terminal
     status carrying the output, or the error name with a cause exactly when the Error Output has one."""
     from common import cj
     if (m.get("status") not in ("SUCCEEDED", "FAILED") or m.get("tieFail" if timed else "multiFail")
-            or oracle_order_ambiguous(m)):
+            or oracle_order_ambiguous(m, requests, timed)):
         return "skipped", []
     want = m.get("notifications", [])
     probs = []
